@@ -335,7 +335,7 @@ def harnesses(tier):
 ORACLES = [
     {'name': 'real CSV files through parse_generic_csv / resolve_source_format (all delimiters, header settings, sign modes, both decimal separators, '
              'short/blank/malformed rows interleaved) against a row-by-row specification; parse_amount against an exhaustive amount grammar incl. nan/inf',
-     'script': 'C05.py', 'bound': 'amount grammar [(-]?[$€£¥]?d{1,4}([., ]d{3})*([.,]d{1,2})?[)]? up to 7 digits x 2 separators; files of <= 6 rows from a pool of 14 rows x 5 format strings x 4 delimiter settings'},
+     'script': 'C05.py', 'bound': 'amount grammar [(-]?[$€£¥]?d{1,4}([., ]d{3})*([.,]d{1,2})?[)]? up to 7 digits x 2 separators; files of <= 6 rows from a pool of 14 rows x 5 format strings x 4 delimiter settings; no-break-space grouping; 7 special files (regex delimiters with optional / alternative groups, byte order marks)'},
 ]
 TRUSTED_BASE = [
     'pyvc symbolic executor', 'z3 5.1.0 / cvc5 1.0.3',
